@@ -172,10 +172,15 @@ def pre_case(case, env):
              ["--pre-glob", "*", "--pre-glob", "!*.txt", "--pre-glob", "!*.cfg"],
              ["--pre-glob", "!f*", "--pre-glob", "*.pp"]][gstyle]
     env.count("pre_glob_style_%d" % gstyle)
-    modes = [("none", []), ("max-count", ["-m1"]), ("quiet", ["-q"]), ("files-with-matches", ["-l"])]
+    # ("multiline": -U with a pattern that may match a line terminator, so
+    # that each command's whole output is collected before it is searched, in
+    # a buffer the worker keeps from one file to the next)
+    modes = [("none", []), ("multiline", ["-U"]), ("max-count", ["-m1"]), ("quiet", ["-q"]), ("files-with-matches", ["-l"])]
     if tier == "quick":
-        modes = [modes[0]] + [rng.pick(modes[1:])]
+        modes = modes[:2] + [rng.pick(modes[2:])]
+    plain_pattern = pattern
     for mname, margs in modes:
+        pattern = plain_pattern + ("\\s?" if mname == "multiline" else "")
         for threads in (["-j1", "-j4"] if tier == "thorough" else [rng.pick(["-j1", "-j4"])]):
             rep["evaluations"] += 1
             argv = ["--no-config", "--color", "never", "--no-heading", "-H", "-n", threads, "--pre", script] + globs + \
@@ -197,11 +202,11 @@ def pre_case(case, env):
             stops_before_eof = {}
             for fi in files:
                 em = fi["emitted"]
-                has_match[fi["name"]] = (pattern.encode() in em)
+                has_match[fi["name"]] = (plain_pattern.encode() in em)
                 # rg stops reading early only if the line that makes it stop
                 # is complete; a match on an unterminated tail forces it to
                 # read on until end of input (the output is then consumed)
-                first = next((l for l in em.split(b"\n") if pattern.encode() in l), None)
+                first = next((l for l in em.split(b"\n") if plain_pattern.encode() in l), None)
                 idx = em.find(first) if first is not None else -1
                 stops_before_eof[fi["name"]] = first is not None and em.find(b"\n", idx) >= 0
             expect_err = []
@@ -212,7 +217,7 @@ def pre_case(case, env):
                 failing = fi["exit"] != 0 or fi["killed"]
                 if not failing:
                     continue
-                early = mname != "none" and has_match[fi["name"]] and stops_before_eof[fi["name"]]
+                early = mname not in ("none", "multiline") and has_match[fi["name"]] and stops_before_eof[fi["name"]]
                 env.count("fault_%s_%s_stderr%d" % ("killed" if fi["killed"] else "exit%d" % fi["exit"], fi["when"], min(fi["stderr"], 101)))
                 if early and fi["stderr"] > 0:
                     unconstrained.append(fi["name"])
@@ -263,7 +268,7 @@ def pre_case(case, env):
                     env.viol("C18:%s:status" % mname, "no failure expected: status %d, expected %d" % (status, want_status), rp)
             if expect_err and any_match:
                 env.nontrivial((case["seed"], mname, threads))
-    env.sample({"files": [{k: v for k, v in fi.items() if k not in ("body", "emitted")} for fi in files][:4], "pattern": pattern})
+    env.sample({"files": [{k: v for k, v in fi.items() if k not in ("body", "emitted")} for fi in files][:4], "pattern": plain_pattern})
 
 
 def misc_case(case, env):
